@@ -168,7 +168,7 @@ def run(tier, seed):
                 for x in xs:
                     for restored in (False, True):
                         tasks.append(("shipped", (name, side, pw, x, restored)))
-    tasks.sort(key=lambda t: -(T.get(t[1][0]).ref.esize * (50 if t[0] == "shipped" else T.get(t[1][0]).q)))
+    tasks.sort(key=lambda t: -(T.hint(t[1][0]).ref.esize * (50 if t[0] == "shipped" else T.hint(t[1][0]).q)))
     core.pmerge(_dispatch, tasks, acc)
     _default_path(acc)
     # a session left half-open while many others run must still refuse its own reflected message (long history, one process)
